@@ -3,6 +3,7 @@ INVARIANT PinsOnce
 INVARIANT PinsNumbered
 INVARIANT PinsMatchImpl
 INVARIANT NamesDefined
+INVARIANT SourceNamesDefined
 INVARIANT DatasheetPinNames
 INVARIANT FunctionIsDatasheet
 INVARIANT Combinational
